@@ -17,7 +17,10 @@ package store
 //@     invariant [C16] one_lookup_per_url: idLookups >= old(idLookups) + #idx
 //@   ensures [C01] recovery:      rowMax[old(msg.Topic)] <= hwm[old(msg.Topic)]
 //@   ensures [C01] saved:         err == nil ==> rowMax[old(msg.Topic)] >= old(msg.SeqId) && hwm[old(msg.Topic)] >= old(msg.SeqId)
-//@   ensures [C01] failed_no_row: err != nil ==> rowMax[old(msg.Topic)] == old(rowMax[msg.Topic])
+// (a failed save leaves no row. Split by where it failed, so that the recorded finding - the attachment link fails after
+// the row was written - does not hide any other way of reporting failure with the row in place)
+//@   ensures [C01] failed_before_linking_no_row: err != nil && called("FileLinkAttachments") == old(called("FileLinkAttachments")) ==> rowMax[old(msg.Topic)] == old(rowMax[msg.Topic])
+//@   ensures [C01] failed_link_no_row: err != nil && called("FileLinkAttachments") > old(called("FileLinkAttachments")) ==> rowMax[old(msg.Topic)] == old(rowMax[msg.Topic])
 //@   ensures [C01] same_msg:      msg.Topic == old(msg.Topic) && msg.SeqId == old(msg.SeqId)
 //@   assert at call MessageSave [C01] hwm_first: hwm[$1.Topic] >= $1.SeqId
 //@   modifies *
@@ -99,6 +102,11 @@ package store
 //@   modifies *
 //@   ensures [C08] delete_id_recorded: err == nil && delID > 0 ==> called("TopicUpdate") == old(called("TopicUpdate")) + 1 && called("SubsUpdate") == old(called("SubsUpdate")) + 1
 //@   assert at call TopicUpdate [C08] same_topic: $1 == topic
+// (C04: the delete-transaction number is recorded only for a deletion that took place: a failed MessageDeleteList is
+// reported, never papered over by the writes that follow)
+//@   assert at call TopicUpdate [C04] only_after_the_deletion_succeeded: err == nil
+//@   assert at call SubsUpdate [C04] only_after_the_number_is_recorded: err == nil
+//@   assert at call MessageDeleteList [C04] the_request_itself: $1 == topic && (delID > 0 ==> $2 != nil && $2.DelId == delID && $2.Topic == topic && ref($2.SeqIdRanges) == ref(ranges) && len($2.SeqIdRanges) == len(ranges))
 
 // C16: every URL listed with a message, a topic or an account is looked up so that it can be linked (the adapters keep
 // one link per topic or user - that rule is theirs, applied to uploads that exist, not to the raw list).
